@@ -1,7 +1,11 @@
 import Oracle.Proto
-/-! Oracle suites of property C06 (registered in Oracle/Main.lean through `suites`). -/
+import Oracle.ActorSys
+/-! Oracle suites of property C06 (the Layer-2 actor-system model is shared by C03–C06). -/
 namespace Oracle.C06
 
-def suites : List (String × Suite) := []
+def suites : List (String × Suite) := [
+  ("actorsys", Oracle.ActorSys.model),
+  ("actorsys-judge", Oracle.ActorSys.judgeC06)
+]
 
 end Oracle.C06
